@@ -2,9 +2,16 @@
 
 Workload: module-level (picklable) classes whose ``Property(observe=...)`` traits,
 cached and uncached, depend on a scalar trait, a nested ``inner.v``, a two-level
-``inner.sub.v``, list items ``items.items.v``, dict values ``d.items.v`` and set
-items ``s.items``, with the same ``Item`` object repeated in the list and shared
-with the dict / ``inner`` / other tracked objects.  Histories interleave relevant
+``inner.sub.v``, list items ``items.items.v``, dict values ``d.items.v``, set
+items ``s.items``, containers sitting on child objects (``items.items.tags.items``,
+``inner.names.items``, ``d.items.attrs.items``; children are attached with those
+containers untouched / stored empty / non-empty and filled in place later), a nested
+object that is a per-instance default (``auto.v``) and a transient list
+(``tl.items``), with the same ``Item`` object repeated in the list and shared
+with the dict / ``inner`` / other tracked objects.  Some construction styles assign
+scalars only, so that the observed containers remain never-assigned defaults that a
+static handler first reads / mutates while the constructor (or ``__setstate__`` /
+``clone_traits``) is still running.  Histories interleave relevant
 mutations, irrelevant mutations and 0-3 reads per step; at random points the
 object is replaced by its pickle round trip (protocols 2-5), ``copy.deepcopy`` or
 ``clone_traits`` and the history continues on the copy while the original stays
@@ -42,26 +49,34 @@ from traits.observation.api import (
 
 META = {
     "level": "exploration",
-    "rule": ("case = one step (operation) of a seeded random 20-step history on a class with 13 "
+    "rule": ("case = one step (operation) of a seeded random 20-step history on a class with 20 "
              "Property(observe=...) traits (cached and uncached; all dependencies / one or two "
-             "dependency kinds each) over a scalar, inner.v, inner.sub.v, items.items.v, d.items.v, "
-             "s.items, with repeated and shared Item objects; 5 class flavours (observe given as one "
-             "string, a list of strings, an ObserverExpression, a list of expressions; with / without "
-             "static handlers; a subclass) x 5 dynamic-listener modes x 4 construction styles, ~50 "
-             "operation kinds incl. copy switches (pickle 2-5, deepcopy, clone_traits default / deep / "
-             "shallow); after every step every tracked object (the live object and up to two earlier "
-             "originals / copies, which are sometimes mutated again) is judged.  One history in 4 runs "
-             "on one of 10 further flavours in which the observed Property is declared in a base class "
-             "(with no getter, uncached getters or cached getters) and the getter is supplied / "
-             "overridden (cached over none / uncached, uncached over cached, every property flipped) by "
-             "a subclass that does not redeclare the trait, incl. grand-children (keys prefixed "
-             "inherited-getter/).  The legacy depends_on strata are switched off (outside the "
-             "statement).  distinct_nontrivial counts distinct "
-             "(class flavour, listener mode, operation kind, origin of the operated object, set of "
-             "dependency kinds whose state changed on it, whether another tracked object was affected, "
-             "which recorder mechanisms had to be notified, whether any notification was seen) "
-             "signatures of steps in which a dependency changed, a notification was seen or a copy "
-             "was made."),
+             "dependency kinds each) over 11 dependency kinds: a scalar, inner.v, inner.sub.v, "
+             "items.items.v, d.items.v, s.items, containers that sit on child objects "
+             "(items.items.tags.items, inner.names.items, d.items.attrs.items), a nested object that "
+             "is a per-instance default (auto.v) and a transient list (tl.items), with repeated and "
+             "shared Item objects whose own containers are untouched defaults / stored empty / "
+             "non-empty when they get attached; 5 class flavours (observe given as one string, a "
+             "list of strings, an ObserverExpression, a list of expressions; with / without static "
+             "handlers; a subclass) x 5 dynamic-listener modes x 9 construction styles (incl. "
+             "constructors that assign scalars only, so that the observed containers stay "
+             "never-assigned defaults first read / mutated by a static handler while the constructor "
+             "-- or __setstate__ / clone_traits for the transient list -- is still running; and the "
+             "same handlers after construction as control), ~75 operation kinds incl. in-place "
+             "mutation and reassignment of child containers, in-handler mutation, and copy switches "
+             "(pickle 2-5, deepcopy, clone_traits default / deep / shallow); after every step every "
+             "tracked object (the live object and up to two earlier originals / copies, which are "
+             "sometimes mutated again) is judged.  One history in 4 runs on one of 10 further "
+             "flavours in which the observed Property is declared in a base class (with no getter, "
+             "uncached getters or cached getters) and the getter is supplied / overridden (cached "
+             "over none / uncached, uncached over cached, every property flipped) by a subclass that "
+             "does not redeclare the trait, incl. grand-children (keys prefixed inherited-getter/).  "
+             "The legacy depends_on strata are switched off (outside the statement).  "
+             "distinct_nontrivial counts distinct (class flavour, listener mode, operation kind, "
+             "origin of the operated object, set of dependency kinds whose state changed on it, "
+             "whether another tracked object was affected, which recorder mechanisms had to be "
+             "notified, whether any notification was seen) signatures of steps in which a dependency "
+             "changed, a notification was seen or a copy was made."),
     "phases": [{"name": "main", "flavour": "P", "shards": 16}],
     "gates": {
         "quick": {"evaluations": 800000, "reads_checked": 250000, "relevant_changes": 30000,
@@ -78,7 +93,12 @@ META = {
                   "inherited_getter_cached_windows_checked": 50000,
                   "inherited_getter_copies_made": 250,
                   "inherited_getter_cache_added_value_changes": 2500,
-                  "inherited_getter_cache_dropped_value_changes": 600},
+                  "inherited_getter_cache_dropped_value_changes": 600,
+                  "child_container_changes": 3000,
+                  "child_container_filled_in_place_from_empty": 250,
+                  "histories_default_first_touched_in_constructor": 200,
+                  "ctor_touched_default_changes_fresh": 500,
+                  "ctor_touched_default_changes_copy": 150},
         "thorough": {"evaluations": 25000000, "reads_checked": 8000000, "relevant_changes": 1000000,
                      "value_changes": 800000, "notifications_required": 1000000,
                      "notifications_required_static": 300000,
@@ -93,7 +113,12 @@ META = {
                      "inherited_getter_cached_windows_checked": 1700000,
                      "inherited_getter_copies_made": 8500,
                      "inherited_getter_cache_added_value_changes": 85000,
-                     "inherited_getter_cache_dropped_value_changes": 20000},
+                     "inherited_getter_cache_dropped_value_changes": 20000,
+                     "child_container_changes": 100000,
+                     "child_container_filled_in_place_from_empty": 8500,
+                     "histories_default_first_touched_in_constructor": 7000,
+                     "ctor_touched_default_changes_fresh": 17000,
+                     "ctor_touched_default_changes_copy": 5000},
     },
     "assumptions": [
         "the getters are pure functions of the declared dependencies; the harness recomputes the "
@@ -111,7 +136,13 @@ META = {
 # ---------------------------------------------------------------------------
 # dependency kinds and the pure functions
 
-KINDS = ("A", "I", "B", "L", "D", "S")
+# A scalar; I inner.v; B inner.sub.v; L items.items.v; D d.items.v; S s.items;
+# T items.items.tags.items  (a list on every child of the list)
+# N inner.names.items       (a set on the nested object)
+# M d.items.attrs.items     (a dict on every value of the dict)
+# J auto.v                  (nested object that is a per-instance DEFAULT, Instance(Item, ()))
+# R tl.items                (a transient list: always a default again on unpickled / cloned objects)
+KINDS = ("A", "I", "B", "L", "D", "S", "T", "N", "M", "J", "R")
 
 
 def _part_A(o):
@@ -143,7 +174,29 @@ def _part_S(o):
     return tuple(sorted(o.s))
 
 
-PART = {"A": _part_A, "I": _part_I, "B": _part_B, "L": _part_L, "D": _part_D, "S": _part_S}
+def _part_T(o):
+    return tuple([tuple(i.tags) for i in o.items])
+
+
+def _part_N(o):
+    i = o.inner
+    return None if i is None else tuple(sorted(i.names))
+
+
+def _part_M(o):
+    return tuple(sorted([(k, tuple(sorted(i.attrs.items()))) for k, i in o.d.items()]))
+
+
+def _part_J(o):
+    return o.auto.v
+
+
+def _part_R(o):
+    return tuple(o.tl)
+
+
+PART = {"A": _part_A, "I": _part_I, "B": _part_B, "L": _part_L, "D": _part_D, "S": _part_S,
+        "T": _part_T, "N": _part_N, "M": _part_M, "J": _part_J, "R": _part_R}
 
 
 def compute(o, kinds):
@@ -166,13 +219,22 @@ PROPS = collections.OrderedDict([
     ("u_d", (("D",), False)),
     ("c_il", (("I", "L"), True)),
     ("c_ds", (("D", "S"), True)),
+    ("c_t", (("T",), True)),
+    ("u_t", (("T",), False)),
+    ("c_n", (("N",), True)),
+    ("c_m", (("M",), True)),
+    ("c_j", (("J",), True)),
+    ("c_r", (("R",), True)),
+    ("c_lr", (("L", "R"), True)),
 ])
 PROP_NAMES = list(PROPS)
 NPROPS = len(PROP_NAMES)
 
 OBS_STR = {"A": "a", "I": "inner.v", "B": "inner.sub.v", "L": "items.items.v",
-           "D": "d.items.v", "S": "s.items"}
-LEGACY_STR = {"A": "a", "I": "inner.v", "B": "inner.sub.v", "L": "items.v", "D": "d.v", "S": "s"}
+           "D": "d.items.v", "S": "s.items", "T": "items.items.tags.items",
+           "N": "inner.names.items", "M": "d.items.attrs.items", "J": "auto.v", "R": "tl.items"}
+LEGACY_STR = {"A": "a", "I": "inner.v", "B": "inner.sub.v", "L": "items.v", "D": "d.v", "S": "s",
+              "T": "items.tags", "N": "inner.names", "M": "d.attrs", "J": "auto.v", "R": "tl"}
 
 
 def _obs_expr(kind):
@@ -186,6 +248,16 @@ def _obs_expr(kind):
         return _otrait("items").list_items().trait("v")
     if kind == "D":
         return _otrait("d").dict_items().trait("v")
+    if kind == "T":
+        return _otrait("items").list_items().trait("tags").list_items()
+    if kind == "N":
+        return _otrait("inner").trait("names").set_items()
+    if kind == "M":
+        return _otrait("d").dict_items().trait("attrs").dict_items()
+    if kind == "J":
+        return _otrait("auto").trait("v")
+    if kind == "R":
+        return _otrait("tl").list_items()
     return _otrait("s").set_items()
 
 
@@ -287,6 +359,25 @@ class Item(HasTraits):
     v = Int
     w = Int
     sub = Instance("Item")
+    tags = List(Int)
+    names = Set(Int)
+    attrs = Dict(Str, Int)
+
+
+def _touch_changed(self, new):
+    """Static handler of the unrelated trait `touch`: first touches (and mutates in place) the
+    observed containers / nested default object -- also while the object is still being
+    constructed, unpickled or cloned, when they may be never-assigned defaults."""
+    if new & 1:
+        self.items.append(Item(v=new % 3))
+    if new & 2:
+        self.d["m"] = Item(v=new % 4)
+    if new & 4:
+        self.s.add(new % 5)
+    if new & 8:
+        self.auto.v = (self.auto.v + 1) % 4
+    if new & 16:
+        self.tl.append(new % 3)
 
 
 def _make_class(name, form=None, static=(), base=None, extra=None, getters="props"):
@@ -306,7 +397,9 @@ def _make_class(name, form=None, static=(), base=None, extra=None, getters="prop
             sn=Int(transient=True), a=Int, irrelevant=Int, probe=Int,
             inner=Instance(Item), items=List(Instance(Item)),
             d=Dict(Str, Instance(Item)), s=Set(Int),
+            auto=Instance(Item, ()), tl=List(Int, transient=True), touch=Int,
         )
+        ns["_touch_changed"] = _touch_changed
         meta = "depends_on" if form.startswith("legacy") else "observe"
         for pname, (kinds, cached) in PROPS.items():
             ns[pname] = Property(**{meta: _expression(form, kinds)})
@@ -396,6 +489,7 @@ LEGACY_CLASSES = ["PL", "PLN"]
 # state, so any subsequence of a history is again a valid history => shrinkable)
 
 DKEYS = ("k", "j", "m")
+AKEYS = ("p", "q")
 COPY_KINDS = ("pickle2", "pickle3", "pickle4", "pickle5", "deepcopy", "clone", "clone_deep",
               "clone_shallow")
 
@@ -405,10 +499,10 @@ LABEL_TOUCH = {}
 for _n in ("l_append", "l_insert", "l_extend", "l_remove", "l_pop", "l_del", "l_delslice", "l_set",
            "l_setslice", "l_setext", "l_sort", "l_reverse", "l_clear", "l_imul", "l_iadd",
            "l_assign"):
-    LABEL_TOUCH[_n] = ("L",)
+    LABEL_TOUCH[_n] = ("L", "T")       # a list event also reaches items.items.tags.items
 for _n in ("d_set", "d_del", "d_pop", "d_update", "d_clear", "d_setdefault", "d_popitem",
            "d_assign", "d_ior"):
-    LABEL_TOUCH[_n] = ("D",)
+    LABEL_TOUCH[_n] = ("D", "M")
 for _n in ("s_add", "s_discard", "s_remove", "s_update", "s_isub", "s_ixor", "s_iand", "s_clear",
            "s_pop", "s_assign"):
     LABEL_TOUCH[_n] = ("S",)
@@ -418,6 +512,22 @@ FAMILY = {"a_set": "scalar", "inner_set": "inner", "inner_v": "inner", "sub_set"
           "item_w": "irrelevant", "probe": "irrelevant", "noop": "irrelevant", "copy": "copy"}
 for _n, _k in LABEL_TOUCH.items():
     FAMILY[_n] = {"L": "list", "D": "dict", "S": "set"}[_k[0]]
+for _n in ("r_append", "r_pop", "r_clear", "r_assign", "r_setslice"):
+    LABEL_TOUCH[_n] = ("R",)
+    FAMILY[_n] = "transient-list"
+# containers that sit on a child object: the kinds touched depend on where the child is
+T_OPS = ["t_append", "t_append", "t_pop", "t_clear", "t_assign", "t_setslice", "t_extend"]
+N_OPS = ["n_add", "n_add", "n_discard", "n_clear", "n_assign", "n_update"]
+M_OPS = ["m_set", "m_set", "m_del", "m_clear", "m_assign", "m_update"]
+for _n in T_OPS:
+    FAMILY[_n] = "child-list"
+for _n in N_OPS:
+    FAMILY[_n] = "child-set"
+for _n in M_OPS:
+    FAMILY[_n] = "child-dict"
+FAMILY.update({"auto_v": "default-instance", "auto_set": "default-instance",
+               "touch": "in-handler"})
+R_OPS = ["r_append", "r_append", "r_pop", "r_clear", "r_assign", "r_setslice"]
 
 L_OPS = [n for n in LABEL_TOUCH if n.startswith("l_")]
 D_OPS = [n for n in LABEL_TOUCH if n.startswith("d_")]
@@ -427,7 +537,9 @@ S_OPS = [n for n in LABEL_TOUCH if n.startswith("s_")]
 def _ref(rng):
     """Reference to an Item: negative => a new Item(v=-n-1), else index into the candidates."""
     if rng.random() < 0.22:
-        return -1 - rng.randrange(4)
+        # value and flavour: containers left as untouched defaults / given explicitly empty /
+        # given non-empty
+        return -1 - rng.randrange(12)
     return rng.randrange(16)
 
 
@@ -447,13 +559,13 @@ def gen_op(rng):
         op["x"] = [rng.randrange(16)]
     else:
         grp = rng.random()
-        if grp < 0.10:
+        if grp < 0.07:
             op["op"] = "a_set"
             op["x"] = [rng.randrange(4)]
-        elif grp < 0.27:
+        elif grp < 0.19:
             op["op"] = "item_v"
             op["x"] = [rng.randrange(16), rng.randrange(4)]
-        elif grp < 0.37:
+        elif grp < 0.27:
             name = rng.choice(["inner_set", "inner_set", "inner_v", "sub_set", "item_sub"])
             op["op"] = name
             if name == "inner_set":
@@ -464,20 +576,38 @@ def gen_op(rng):
                 op["x"] = [_ref(rng) if rng.random() < 0.85 else None]
             else:
                 op["x"] = [rng.randrange(16), rng.randrange(16) if rng.random() < 0.85 else None]
-        elif grp < 0.65:
+        elif grp < 0.46:
             name = rng.choice(L_OPS)
             op["op"] = name
             op["x"] = [rng.randrange(-7, 8), rng.randrange(-7, 8), rng.choice([1, 1, 2, -1, 3]),
                        [_ref(rng) for _ in range(rng.randrange(4))]]
-        elif grp < 0.84:
+        elif grp < 0.59:
             name = rng.choice(D_OPS)
             op["op"] = name
             op["x"] = [rng.randrange(3), _ref(rng),
                        [[rng.randrange(3), _ref(rng)] for _ in range(rng.randrange(3))]]
-        else:
+        elif grp < 0.66:
             name = rng.choice(S_OPS)
             op["op"] = name
             op["x"] = [rng.randrange(5), [rng.randrange(5) for _ in range(rng.randrange(4))]]
+        elif grp < 0.85:
+            # in-place mutation / reassignment of a container that sits on a child object
+            name = rng.choice(T_OPS + N_OPS + M_OPS)
+            op["op"] = name
+            op["x"] = [rng.randrange(20), rng.randrange(5),
+                       [rng.randrange(5) for _ in range(rng.randrange(3))]]
+        elif grp < 0.89:
+            name = rng.choice(["auto_v", "auto_v", "auto_set"])
+            op["op"] = name
+            op["x"] = [rng.randrange(4), _ref(rng)]
+        elif grp < 0.95:
+            name = rng.choice(R_OPS)
+            op["op"] = name
+            op["x"] = [rng.randrange(5), [rng.randrange(5) for _ in range(rng.randrange(3))]]
+        else:
+            # a static handler of an unrelated trait mutates the containers in place
+            op["op"] = "touch"
+            op["x"] = [rng.randrange(1, 32)]
     return op
 
 
@@ -487,7 +617,14 @@ def gen_history(rng, steps, legacy=False, unique=False, collapse=None, classes=N
         "cls": rng.choice(classes or (LEGACY_CLASSES if legacy else OBSERVE_CLASSES)),
         "listen": rng.choice(["none", "otc", "obs", "both", "both"]),
         "dyn": rng.getrandbits(NPROPS) | rng.getrandbits(NPROPS),
-        "init": rng.choice(["empty", "kw", "kw", "kw_probe", "kw_probe", "late"]),
+        # kw_default_read / kw_default_touch: the observed containers and the nested default
+        # object are never assigned; their defaults are first read / mutated by a static handler
+        # while the constructor is still processing its keywords.  late_touch is the control
+        # (same handler, after construction).
+        "init": rng.choice(["empty", "kw", "kw", "kw_probe", "kw_probe", "late",
+                            "kw_default_read", "kw_default_read", "kw_default_touch",
+                            "kw_default_touch", "late_touch"]),
+        "init_bits": rng.randrange(1, 32),
     }
     return spec, [gen_op(rng) for _ in range(steps)]
 
@@ -496,13 +633,16 @@ def gen_history(rng, steps, legacy=False, unique=False, collapse=None, classes=N
 # run-time helpers
 
 class Tracked:
-    __slots__ = ("obj", "sn", "origin", "mechs", "win", "last")
+    __slots__ = ("obj", "sn", "origin", "mechs", "win", "last", "ctor_defaults")
 
     def __init__(self, obj, sn, origin):
         self.obj, self.sn, self.origin = obj, sn, origin
         self.mechs = {}       # prop -> set of attached recorder mechanisms
         self.win = {}         # cached prop -> [getter runs since last relevant change, allowed]
         self.last = {}        # prop -> family of the last relevant change (for the keys)
+        # kinds whose container / nested object is a never-assigned default that was first
+        # touched while the object was being constructed / unpickled / cloned (counters only)
+        self.ctor_defaults = set()
 
 
 def _reachable(o):
@@ -512,6 +652,7 @@ def _reachable(o):
     cands += list(o.items)
     d = o.d
     cands += [d[k] for k in sorted(d)]
+    cands.append(o.auto)
     for x in cands:
         if x is not None and id(x) not in seen:
             seen.add(id(x))
@@ -530,8 +671,9 @@ def _has_sharing(o):
 
 
 def _snap(o):
-    """(fingerprint per kind, value per kind).  Fingerprints hold the objects themselves
-    (compared by identity through the default __eq__), never id()s."""
+    """(fingerprint per kind, value per kind).  Fingerprints hold the Items themselves (compared
+    by identity through the default __eq__); containers, whose == compares contents, are
+    identified by id() while the snapshot keeps them alive under "_keep"."""
     inner = o.inner
     sub = None if inner is None else inner.sub
     items = list(o.items)
@@ -539,14 +681,40 @@ def _snap(o):
     dk = sorted(d)
     dv = [d[k] for k in dk]
     s = tuple(sorted(o.s))
+    auto = o.auto
+    tl = o.tl
+    tags = [i.tags for i in items]
+    names = None if inner is None else inner.names
+    attrs = [i.attrs for i in dv]
     vI = None if inner is None else inner.v
     vB = None if sub is None else sub.v
     vL = tuple([i.v for i in items])
     vD = tuple([(k, i.v) for k, i in zip(dk, dv)])
-    val = {"A": o.a, "I": vI, "B": vB, "L": vL, "D": vD, "S": s}
+    vT = tuple([tuple(t) for t in tags])
+    vN = None if names is None else tuple(sorted(names))
+    vM = tuple([(k, tuple(sorted(a.items()))) for k, a in zip(dk, attrs)])
+    vJ = auto.v
+    vR = tuple(tl)
+    val = {"A": o.a, "I": vI, "B": vB, "L": vL, "D": vD, "S": s, "T": vT, "N": vN, "M": vM,
+           "J": vJ, "R": vR}
     fp = {"A": val["A"], "I": (inner, vI), "B": (inner, sub, vB), "L": (items, vL),
-          "D": (dk, dv, vD), "S": s}
+          "D": (dk, dv, vD), "S": s,
+          "T": (items, [id(t) for t in tags], vT),
+          "N": (inner, id(names), vN),
+          "M": (dk, dv, [id(a) for a in attrs], vM),
+          "J": (auto, vJ),
+          "R": (id(tl), vR),
+          "_keep": (tags, names, attrs, tl)}
     return fp, val
+
+
+def _child_touch(o, it, group):
+    """Dependency kinds of o that a container event on child `it` can reach."""
+    if group == "t":
+        return ("T",) if any(it is y for y in o.items) else ()
+    if group == "n":
+        return ("N",) if it is o.inner else ()
+    return ("M",) if any(it is y for y in o.d.values()) else ()
 
 
 def _val(val, kinds):
@@ -599,6 +767,8 @@ class History:
         self.pool = []
         self.tracked = []
         self.trace = []
+        self.dyn_touch = ()
+        self.reassigned = None
         self.step = -1
         self.phase = "construct"
 
@@ -648,9 +818,12 @@ class History:
         return t
 
     def build(self):
-        pool = self.pool = [Item(v=i % 3) for i in range(4)]
+        # children whose own containers are untouched defaults / explicitly empty / non-empty
+        pool = self.pool = [Item(v=0), Item(v=1, tags=[], names=set(), attrs={}),
+                            Item(v=2, tags=[2], names={2}, attrs={"p": 2}), Item(v=0, tags=[])]
         init = self.spec["init"]
         cls = self.cls
+        ctor_defaults = ()
         if self.unique:
             # no Item reachable twice from one object
             if init == "empty":
@@ -674,6 +847,27 @@ class History:
             # while the constructor is still assigning the dependencies
             o = cls(a=1, inner=pool[1], probe=1, items=[pool[0], pool[1], pool[0]], irrelevant=3,
                     d={"k": pool[1], "m": pool[3]}, s={0, 3})
+        elif init == "kw_default_read":
+            # nothing but scalars is assigned: the static handler of `probe` reads every property,
+            # i.e. the getters materialise the DEFAULT list / dict / set / nested object while the
+            # constructor is still processing its keywords; they are never assigned afterwards
+            o = cls(a=1, probe=1, irrelevant=2)
+            ctor_defaults = ("L", "D", "S", "J", "R")
+        elif init == "kw_default_touch":
+            # same, but the handler (of `touch`) also mutates those defaults in place
+            bits = self.spec.get("init_bits", 31)
+            if bits >= 16:
+                o = cls(a=2, touch=bits, probe=1)       # ... and `probe` reads all of them
+                ctor_defaults = ("L", "D", "S", "J", "R")
+            else:
+                o = cls(touch=bits, a=2)
+                ctor_defaults = tuple(k for k, b in (("L", 1), ("D", 2), ("S", 4), ("J", 8))
+                                      if bits & b)
+        elif init == "late_touch":
+            # control: the same handlers run after construction
+            o = cls()
+            o.touch = self.spec.get("init_bits", 31)
+            o.probe = 1
         else:
             o = cls()
             o.probe = 1
@@ -686,7 +880,11 @@ class History:
         ST.log[:] = []
         self.check_probe("construct")
         self.phase = "attach-recorders"
-        return self.track(o, "fresh")
+        t = self.track(o, "fresh")
+        t.ctor_defaults = set(ctor_defaults)
+        if ctor_defaults:
+            self.count("histories_default_first_touched_in_constructor")
+        return t
 
     # -- item references -----------------------------------------------------
     def cands(self, o):
@@ -711,7 +909,15 @@ class History:
         if ref is None:
             return None
         if ref < 0:
-            it = Item(v=(-ref - 1) % 4)
+            n = -ref - 1
+            v, flavour = n % 4, n // 4
+            if flavour == 1:
+                # containers stored on the child and EMPTY when the child gets attached
+                it = Item(v=v, tags=[], names=set(), attrs={})
+            elif flavour == 2:
+                it = Item(v=v, tags=[v], names={v, 4}, attrs={"p": v})
+            else:
+                it = Item(v=v)               # untouched defaults
             self.pool.append(it)
             if len(self.pool) > 6:
                 del self.pool[0]
@@ -783,6 +989,22 @@ class History:
             self.apply_dict(name, o, x)
         elif name.startswith("s_"):
             self.apply_set(name, o, x)
+        elif name[:2] in ("t_", "n_", "m_"):
+            self.apply_child(name, o, x)
+        elif name.startswith("r_"):
+            self.apply_transient(name, t, x)
+        elif name == "auto_v":
+            o.auto.v = x[0]
+        elif name == "auto_set":
+            o.auto = self.item(o, x[1])
+            t.ctor_defaults.discard("J")
+        elif name == "touch":
+            bits = x[0]
+            self.dyn_touch = tuple(k for b, ks in ((1, "LT"), (2, "DM"), (4, "S"), (8, "J"),
+                                                   (16, "R")) if bits & b for k in ks)
+            # always a new value, so the static handler `_touch_changed` runs
+            o.touch = (((o.touch >> 5) + 1) << 5) | bits
+            return bin(bits).count("1"), None
         elif name == "copy":
             kind = x[0]
             if kind.startswith("pickle"):
@@ -799,6 +1021,86 @@ class History:
         else:
             raise AssertionError(name)
         return 1, None
+
+    def apply_child(self, name, o, x):
+        """In-place mutation / reassignment of a container that sits on a child object."""
+        sel, v, many = x
+        group = name[0]
+        c = []
+        if sel % 5 != 4:
+            # prefer a child in the position the observers look at
+            if group == "t":
+                c = list(o.items)
+            elif group == "n":
+                c = [o.inner] if o.inner is not None else []
+            else:
+                d = o.d
+                c = [d[k] for k in sorted(d)]
+        if not c:
+            c = self.cands(o)
+        it = c[sel % len(c)]
+        # the container event may reach every tracked object that holds this child in the
+        # observed position (also without a change of contents): see _child_touch
+        self.child_op = (it, group)
+        observed = bool(_child_touch(o, it, group))
+        cont = it.tags if group == "t" else it.names if group == "n" else it.attrs
+        was_empty = len(cont) == 0
+        if name == "t_append":
+            cont.append(v)
+        elif name == "t_extend":
+            cont.extend(many)
+        elif name == "t_pop":
+            if cont:
+                cont.pop()
+        elif name == "t_clear":
+            cont.clear()
+        elif name == "t_setslice":
+            cont[0:1] = many
+        elif name == "t_assign":
+            it.tags = list(many)
+        elif name == "n_add":
+            cont.add(v)
+        elif name == "n_update":
+            cont.update(many)
+        elif name == "n_discard":
+            cont.discard(v)
+        elif name == "n_clear":
+            cont.clear()
+        elif name == "n_assign":
+            it.names = set(many)
+        elif name == "m_set":
+            cont[AKEYS[v % 2]] = v + len(many)
+        elif name == "m_update":
+            cont.update({AKEYS[i % 2]: m for i, m in enumerate(many)})
+        elif name == "m_del":
+            cont.pop(AKEYS[v % 2], None)
+        elif name == "m_clear":
+            cont.clear()
+        elif name == "m_assign":
+            it.attrs = {AKEYS[i % 2]: m for i, m in enumerate(many)}
+        else:
+            raise AssertionError(name)
+        if observed and was_empty and len(cont) and not name.endswith("_assign"):
+            self.count("child_container_filled_in_place_from_empty")
+
+    def apply_transient(self, name, t, x):
+        v, many = x
+        o = t.obj
+        tl = o.tl
+        if name == "r_append":
+            tl.append(v)
+        elif name == "r_pop":
+            if tl:
+                tl.pop()
+        elif name == "r_clear":
+            tl.clear()
+        elif name == "r_setslice":
+            tl[0:1] = many
+        elif name == "r_assign":
+            o.tl = list(many)
+            t.ctor_defaults.discard("R")
+        else:
+            raise AssertionError(name)
 
     def apply_list(self, name, o, x):
         p, q, step, refs = x
@@ -843,6 +1145,7 @@ class History:
                 lst *= (2 if p >= -3 and not self.unique else 0)
         elif name == "l_assign":
             o.items = [self.item(o, r) for r in refs]
+            self.reassigned = "L"
         else:
             raise AssertionError(name)
 
@@ -870,6 +1173,7 @@ class History:
                 d.popitem()
         elif name == "d_assign":
             o.d = {DKEYS[a]: self.item(o, b) for a, b in pairs}
+            self.reassigned = "D"
         else:
             raise AssertionError(name)
 
@@ -898,6 +1202,7 @@ class History:
                 s.pop()
         elif name == "s_assign":
             o.s = set(many)
+            self.reassigned = "S"
         else:
             raise AssertionError(name)
 
@@ -1016,6 +1321,9 @@ class History:
         ST.probe[:] = []
         self.count("ops")
         self.phase = "apply"
+        self.dyn_touch = ()
+        self.child_op = None
+        self.reassigned = None
         try:
             mult, new = self.apply(op, target)
         except Stop:
@@ -1035,7 +1343,9 @@ class History:
         self.check_excs(name)
         self.check_probe("copy" if name == "copy" else "step")
         post = {t.sn: _snap(t.obj) for t in tracked}
-        touch = LABEL_TOUCH.get(name, ())
+        touch = LABEL_TOUCH.get(name, ()) + self.dyn_touch
+        if self.reassigned:
+            target.ctor_defaults.discard(self.reassigned)
         log = ST.log
         self.check_handler_log("during-copy" if name == "copy" else fam)
         changed_kinds = ()
@@ -1047,6 +1357,19 @@ class History:
             is_target = t is target and name != "copy"
             role = "target" if t is target else "other"
             kinds_changed = tuple([k for k in KINDS if fp0[k] != fp1[k]])
+            # kinds an event may have reached without a change of contents
+            t_touch = touch if is_target else ()
+            if self.child_op is not None:
+                t_touch = t_touch + _child_touch(t.obj, *self.child_op)
+            for k in kinds_changed:
+                if k in t.ctor_defaults:
+                    # in-place change of a never-assigned default first touched during
+                    # construction / __setstate__ / clone
+                    self.count("ctor_touched_default_changes")
+                    self.count("ctor_touched_default_changes_" +
+                               ("fresh" if t.origin == "fresh" else "copy"))
+                if k in "TNM":
+                    self.count("child_container_changes")
             if t is target:
                 changed_kinds = kinds_changed
             elif kinds_changed:
@@ -1057,7 +1380,7 @@ class History:
                 fp_changed = any(k in kinds_changed for k in kinds)
                 v0, v1 = _val(val0, kinds), _val(val1, kinds)
                 recs = [r for r in log if r[0] == t.sn and r[1] == pname]
-                relevant = fp_changed or (is_target and any(k in kinds for k in touch))
+                relevant = fp_changed or any(k in kinds for k in t_touch)
                 if relevant:
                     self.count("relevant_changes")
                     t.last[pname] = fam
@@ -1122,6 +1445,11 @@ class History:
             ST.log[:] = []
             self.phase = "attach-recorders"
             nt = self.track(new, op["x"][0])
+            if new.probe:
+                # `probe` was restored / copied with a non-default value, so its static handler
+                # read every property -- and with them the transient list's default -- while the
+                # copy was still being restored
+                nt.ctor_defaults = {"R"}
             self.count("copies_made")
             self.count("copies_" + _okind(op["x"][0]))
             fpn, valn = _snap(new)
